@@ -11,8 +11,13 @@ mode 'real'    : real nlopt / scipy optimisers, real likelihoods, cheap closed-f
 mode 'perturb' : dadi.Misc.perturb_params with numpy.random.uniform replaced by given draws.
 mode 'project' : dadi.Inference._project_params_down / _project_params_up and their two compositions on given vectors.
 
-In every mode fixed_params / lower_bound / upper_bound are handed over with the Python types the case names (`*_kinds`:
-int 0, 0.0, -0.0, numpy.float64, numpy.int64, bool; `*_container`: list, tuple, numpy array).
+In every mode fixed_params / lower_bound / upper_bound / p0 / the free and full vectors of the projection helpers are handed
+over with the Python types the case names (`*_kinds`, per element: Python int, float, -0.0, bool, numpy.float64 / float32 /
+int64 / int32 / bool_ scalars, a 0-d array; `*_container`: list, tuple, numpy array of a named dtype (`array:int64`, ...),
+numpy's own choice of dtype (`array:auto`), a 0-d array, the bare scalar), and the ranges of optimize_grid with the Python
+type of each of start / stop / step (`grid_kinds`: int, float, complex step): numpy.mgrid yields an INTEGER grid when every
+number of every range is a Python int.  The scripted scipy stubs evaluate the start exactly as it was handed to them (dtype
+included), as scipy.optimize.fmin_powell does.
 """
 import sys, json, warnings, inspect, math
 warnings.filterwarnings('ignore')
@@ -50,11 +55,13 @@ REC = {}
 def play(func, x0, maximize):
     """evaluate the start, then the proposals; return (best point, its value) -- first one among equals --
     or the ret-th point of the trace"""
+    x0_as_handed = np.array(x0) if SCRIPT.get('start_as_handed') else np.array(x0, dtype=float)
     x0 = np.array(x0, dtype=float)
     trace = [x0] + [np.array(p, dtype=float) for p in SCRIPT['props']]
     vals = []
-    for x in trace:
-        vals.append(float(func(x.copy())))
+    for k, x in enumerate(trace):
+        # (scipy.optimize.fmin_powell evaluates an integer start as the integer array it was handed)
+        vals.append(float(func(x0_as_handed.copy() if k == 0 else x.copy())))
     REC['trace'] = [jl(x) for x in trace]
     REC['vals'] = [jf(v) for v in vals]
     if SCRIPT['ret'] is not None:
@@ -122,7 +129,11 @@ def _scipy_play(name, A, fkey, bounds=None):
     lo, hi = bounds_pairs(bounds, len(x0))
     REC['lo'] = jl(lo) if lo else []; REC['hi'] = jl(hi) if hi else []
     REC['start'] = jl(x0); REC['maximize'] = False
-    return play(lambda x: func(x, *args), x0, False)
+    SCRIPT['start_as_handed'] = True
+    try:
+        return play(lambda x: func(x, *args), np.atleast_1d(np.asarray(A['x0'])), False)
+    finally:
+        SCRIPT['start_as_handed'] = False
 
 def stub_fmin_bfgs(*a, **k):
     A = _bind('fmin_bfgs', a, k)
@@ -171,8 +182,21 @@ def quad(spec, p):
         s = s + wi * (pi - ci) * (pi - ci)
     return spec['c0'] - s
 
-def grid_slices(ranges):
-    return tuple(slice(a, b, c) for a, b, c in ranges)
+def grid_num(v, kind):
+    if kind == 'int':
+        assert float(v) == int(v)
+        return int(v)
+    if kind == 'complex':                      # the step "5j": that many points, both ends included
+        assert float(v) == int(v)
+        return complex(0, int(v))
+    if kind == 'npint':
+        assert float(v) == int(v)
+        return np.int64(int(v))
+    return float(v)
+
+def grid_slices(ranges, kinds=None):
+    kinds = kinds or [None] * len(ranges)
+    return tuple(slice(*[grid_num(v, k) for v, k in zip(r, ks or [None] * 3)]) for r, ks in zip(ranges, kinds))
 
 # ------------------------------------------------------------------------------------------------
 # the caller-visible arguments with the Python types the case asks for: a value fixed at zero may arrive as 0, 0.0, -0.0,
@@ -197,6 +221,20 @@ def typed(v, kind):
     if kind == 'bool':
         assert float(v) in (0.0, 1.0)
         return bool(v)
+    if kind == 'npbool':
+        assert float(v) in (0.0, 1.0)
+        return np.bool_(bool(v))
+    if kind == 'npint32':
+        assert float(v) == int(v)
+        return np.int32(int(v))
+    if kind == 'npfloat32':
+        assert float(np.float32(v)) == float(v)
+        return np.float32(v)
+    if kind == 'np0d':
+        return np.array(float(v))
+    if kind == 'np0d_int':
+        assert float(v) == int(v)
+        return np.array(int(v))
     raise ValueError('unknown kind %r' % (kind,))
 
 def typed_seq(vals, kinds, how, force_object=False):
@@ -206,6 +244,18 @@ def typed_seq(vals, kinds, how, force_object=False):
     out = [typed(v, k) for v, k in zip(vals, kinds)]
     if how == 'tuple':
         return tuple(out)
+    if how == 'scalar':                                   # the bare value
+        assert len(out) == 1
+        return out[0]
+    if how == 'array0d':                                  # numpy.array(value): no axis at all
+        assert len(out) == 1
+        return np.array(out[0])
+    if how == 'array:auto':                               # numpy's own choice of dtype for these elements
+        return np.array(out)
+    if isinstance(how, str) and how.startswith('array:'):
+        a = np.array(out, dtype=np.dtype(how[6:]))
+        assert [float(x) for x in a] == [float(v) for v in vals], (how, vals)
+        return a
     if how == 'array':
         if force_object or any(v is None for v in out):
             a = np.empty(len(out), dtype=object)
@@ -219,7 +269,7 @@ def typed_args(c):
     return {'fixed': typed_seq(c.get('fixed'), c.get('fixed_kinds'), c.get('fixed_container'), force_object=True),
             'lower': typed_seq(c.get('lower'), c.get('lower_kinds'), c.get('bound_container')),
             'upper': typed_seq(c.get('upper'), c.get('upper_kinds'), c.get('bound_container')),
-            'p0': None if c.get('p0') is None else list(c['p0'])}
+            'p0': None if c.get('p0') is None else typed_seq(c['p0'], c.get('p0_kinds'), c.get('p0_container'))}
 
 def plain(seq):
     return None if seq is None else [None if v is None else float(v) for v in seq]
@@ -234,17 +284,17 @@ def call_wrapper(c, data, model, full_output=True):
         for key in ('maxeval', 'ftol_abs', 'xtol_abs'):
             if c.get(key) is not None:
                 kw[key] = c[key]
-        x, f = NL.opt(list(c['p0']), data, model, None, **kw)
+        x, f = NL.opt(c['p0'], data, model, None, **kw)
         return x, f
     if fn == 'optimize_grid':
-        out = Inf.optimize_grid(data, model, None, grid_slices(c['grid']), full_output=full_output, **kw)
+        out = Inf.optimize_grid(data, model, None, grid_slices(c['grid'], c.get('grid_kinds')), full_output=full_output, **kw)
         return (out[0], out[1]) if full_output else (out, None)
     kw.update(lower_bound=c['lower'], upper_bound=c['upper'], full_output=full_output)
     if fn not in ('optimize_log_fmin', 'optimize_log_powell') and c.get('ll_scale') is not None:
         kw['ll_scale'] = c['ll_scale']
     if c.get('maxiter') is not None:
         kw['maxiter'] = c['maxiter']
-    out = getattr(Inf, fn)(list(c['p0']), data, model, None, **kw)
+    out = getattr(Inf, fn)(c['p0'], data, model, None, **kw)
     return (out[0], out[1]) if full_output else (out, None)
 
 def copy_in(c):
@@ -378,8 +428,13 @@ def run_project(cases):
     for c in cases:
         rec = {'id': c['id']}
         fixed = typed_seq(c.get('fixed'), c.get('fixed_kinds'), c.get('fixed_container'), force_object=True)
-        pin = typed_seq(c['pin'], None, c.get('pin_container'))
-        free = c['free'][0] if c.get('free_scalar') else typed_seq(c['free'], None, c.get('pin_container'))
+        pin = typed_seq(c['pin'], c.get('pin_kinds'), c.get('pin_container'))
+        free = c['free'][0] if c.get('free_scalar') else typed_seq(c['free'], c.get('free_kinds'), c.get('free_container', c.get('pin_container')))
+        try:
+            rec['free_type'] = str(free.dtype) + ('[%d-d]' % free.ndim) if isinstance(free, np.ndarray) else type(free).__name__
+            rec['up_type'] = str(getattr(Inf._project_params_up(free, fixed), 'dtype', None))
+        except Exception:
+            pass
         def attempt(name, thunk, conv):
             try:
                 rec[name] = conv(thunk())
